@@ -215,8 +215,8 @@ def drive_arith(rec, quick):
     # convolution window
     wmax = 5 if quick else 9
     # the box, then long operands (each side alone and both; lengths around the powers of two and well beyond)
-    longs = [(129, 3), (3, 129), (130, 131), (300, 100), (100, 300), (64, 65), (17, 33)] if quick else \
-            [(129, 3), (3, 129), (130, 131), (300, 100), (100, 300), (64, 65), (17, 33), (257, 2), (2, 257), (512, 513), (1000, 40), (40, 1000)]
+    longs = [(129, 3), (3, 129), (130, 131), (300, 100), (100, 300), (64, 65), (17, 33), (1030, 1100)] if quick else \
+            [(129, 3), (3, 129), (130, 131), (300, 100), (100, 300), (64, 65), (17, 33), (257, 2), (2, 257), (512, 513), (1000, 40), (40, 1000), (1030, 1100), (2100, 2049)]
     for (sa, sb) in [(x, y) for x in range(0, wmax) for y in range(0, wmax)] + longs:
         if True:
             long_ = sa >= wmax or sb >= wmax
@@ -327,9 +327,13 @@ def drive_rounding(rec, count):
         else:
             n_ok += 1
     # long vectors with the three operands in different alignment classes (integer-valued data: exact results, compared with numpy)
-    for m in ([16384, 65536] if count < 100 else [4096, 8192, 16384, 32768, 65536]):
+    # (the table forms take any length their kernel's step divides: also lengths that are no powers of two, short and long)
+    for m in ([16384, 65536, 12, 36, 100, 32772, 24, 104, 32776] if count < 100 else
+              [4096, 8192, 16384, 32768, 65536, 12, 20, 36, 100, 1000, 32772, 40004, 65532, 24, 40, 104, 32776, 65528]):
         for kern in kernels.PW_KERNELS:
             if not kernels.applicable(kern, m) or kern[3] == "simple":
+                continue
+            if m & (m - 1) and kern[1] != "reim":        # (the cplx and reim4 constructors insist on a power of two; the reim ones take any length)
                 continue
             g = np.random.default_rng(rec.seed + m)
             a, b, r0 = (g.integers(-1000, 1001, (m, 2)).astype(np.float64) for _ in range(3))
